@@ -203,8 +203,36 @@ def analyse(func, cname):
             for ln in range(node.lineno, (getattr(node, "end_lineno", None) or node.lineno) + 1):
                 lines[ln] = cur
 
+    hstack = []      # (site ordinal, names holding the caught exception) of the enclosing except clauses
+    params = {a.arg for a in func.args.args if "exc" in a.arg}
+
+    def formats_exception(node, names):
+        """does the statement format one of `names` eagerly (an exception whose __str__/__repr__ raises makes it raise)?
+        Arguments handed to a logging call for lazy %-formatting do not count: logging contains formatting errors."""
+        def has(n):
+            return any(isinstance(x, ast.Name) and x.id in names for x in ast.walk(n))
+        for n in ast.walk(node):
+            if isinstance(n, ast.BinOp) and isinstance(n.op, ast.Mod) and has(n.right):
+                return True
+            if isinstance(n, ast.Call) and isinstance(n.func, ast.Name) and n.func.id in ("str", "repr", "format", "ascii") and n.args and has(n.args[0]):
+                return True
+            if isinstance(n, ast.Call) and isinstance(n.func, ast.Attribute) and n.func.attr == "format" and isinstance(n.func.value, ast.Constant) \
+                    and any(has(a) for a in n.args):
+                return True
+            if isinstance(n, ast.JoinedStr) and any(isinstance(v, ast.FormattedValue) and has(v.value) for v in n.values):
+                return True
+        return False
+
     def expr(node, cur):
         """anchored calls inside an expression / simple statement, in source order"""
+        if hstack and isinstance(node, ast.stmt):
+            names = set(params)
+            for _, nm in hstack:
+                names |= nm
+            if formats_exception(node, names):
+                idx = counts.get("KFormatExc", 0)
+                counts["KFormatExc"] = idx + 1
+                anchors.append({"fn": cname, "kind": "KFormatExc", "idx": idx, "site": cur, "line": node.lineno, "handler": hstack[-1][0]})
         found = []
         for n in ast.walk(node):
             k = call_kind(n)
@@ -213,7 +241,7 @@ def analyse(func, cname):
         for ln, col, k, n in sorted(found, key=lambda t: (t[0], t[1])):
             idx = counts.get(k, 0)
             counts[k] = idx + 1
-            anchors.append({"fn": cname, "kind": k, "idx": idx, "site": cur, "line": ln})
+            anchors.append({"fn": cname, "kind": k, "idx": idx, "site": cur, "line": ln, "handler": hstack[-1][0] if hstack else None})
 
     def stmts(body, cur):
         for st in body:
@@ -242,7 +270,15 @@ def analyse(func, cname):
                     site["handlers"].append((class_tuple(h.type), "GAlways", handler_action(h, func.name, skip_head=True)))
                 else:
                     site["handlers"].append((class_tuple(h.type), "GAlways", handler_action(h, func.name)))
+                names = {h.name} if h.name else set()
+                for x in ast.walk(h):      # ex_t, ex_v, ex_tb = sys.exc_info()  /  xt, xv, tb = sys.exc_info()
+                    if isinstance(x, ast.Assign) and isinstance(x.value, ast.Call) and isinstance(x.value.func, ast.Attribute) \
+                            and x.value.func.attr == "exc_info" and isinstance(x.targets[0], ast.Tuple) and len(x.targets[0].elts) == 3 \
+                            and isinstance(x.targets[0].elts[1], ast.Name):
+                        names.add(x.targets[0].elts[1].id)
+                hstack.append((ordn, names))
                 stmts(h.body, cur)
+                hstack.pop()
             stmts(st.orelse, cur)
             stmts(st.finalbody, cur)
             return
@@ -405,7 +441,7 @@ def gen_handlers(tree):
                              "lines": {str(k): v for k, v in sorted(lines.items())},
                              "sites": [{"ord": s["ord"], "kind": s["kind"], "line": s["line"], "outer": s["outer"], "finally": s["finally"],
                                         "handlers": [[c, a, g] for c, g, a in s["handlers"]]} for s in sites],
-                             "anchors": [{"kind": a["kind"], "idx": a["idx"], "site": a["site"], "line": a["line"]} for a in anchors]}
+                             "anchors": [{"kind": a["kind"], "idx": a["idx"], "site": a["site"], "line": a["line"], "handler": a["handler"]} for a in anchors]}
         shas[cname] = ast_sha(func)
         if cname == "FHandleRequest":
             rule = reply_rule(func)
@@ -420,8 +456,8 @@ def gen_handlers(tree):
             s["fn"], s["ord"], s["kind"], s["line"], s["fn"], s["ord"], hs, "true" if s["finally"] else "false", copt(s["outer"])))
     out += ";\n".join(rows) + "\n  ].\n\n"
     out += "Definition gen_anchors : list anchor :=\n  [\n"
-    out += ";\n".join("   (* line %d *) {| a_fn := %s; a_kind := %s; a_idx := %d; a_site := %s |}" % (
-        a["line"], a["fn"], a["kind"], a["idx"], copt(a["site"])) for a in all_anchors)
+    out += ";\n".join("   (* line %d *) {| a_fn := %s; a_kind := %s; a_idx := %d; a_site := %s; a_handler := %s |}" % (
+        a["line"], a["fn"], a["kind"], a["idx"], copt(a["site"]), copt(a["handler"])) for a in all_anchors)
     out += "\n  ].\n\n"
     out += "Definition gen_hier : list (cls * cls) :=\n  [" + ";\n   ".join("(%s, %s)" % (cstr(a), cstr(b)) for a, b in hier) + "].\n\n"
     out += "Definition gen_reply : reply_rule :=\n  {| rr_never := %s; rr_always := %s; rr_unless := %s; rr_reraise := %s |}.\n\n" % (
